@@ -86,6 +86,20 @@ CLAIMED["C15"] = dict(
     technique="Lean 4 theorems quantified over configurations and fault inputs + exhaustive fault-position enumeration per scenario",
     design="§7 C15")
 
+if os.path.exists(os.path.join(HERE, "lean", "Ivy", "L3", "InotifyProofs.lean")):
+    CLAIMED["C20"] = dict(
+        text="Lean 4 theorems (Ivy/Props/C20.lean, 13) over a model of iv_inotify.c's walk (byte-offset buffer with the len+16 stride, watch tree as an "
+             "association list unique by wd, the `term` mechanism): for every buffer, watch set and reaction program under valid use — no fault; the calls "
+             "of a walk are exactly, in buffer order, the records whose wd had a registered watch when reached, each to that watch; IN_IGNORED / one-shot "
+             "watches are absent from the instance at handler entry; after a watch or instance unregister nothing more is delivered to it and a dead "
+             "instance is never touched. Tied to the current iv_inotify.c by replaying logs of the real file (white-box include, scripted read/"
+             "inotify_add_watch, every struct malloc'ed and freed at unregister under ASan) through the model; 1 case in 20 runs on the real kernel inotify; "
+             "an implementation-only oracle yields the failing input.",
+        note="Trusted: Lean kernel; standard axioms; harness; kernel contract (whole records, len fields valid); AVL layer verified separately (C16); valid use "
+             "(unregister only registered things, a dropped watch is not unregistered again).",
+        technique="Lean 4 invariant + trace-specification proofs over all buffers and reaction programs + log-replay correspondence",
+        design="§7 C20")
+
 NOT_YET = "check not built yet in this round; planned per DESIGN.md §7 (Lean model + theorems + correspondence)"
 
 checks = []
